@@ -163,14 +163,34 @@ Lemma prep_composes : forall sg fs0 refs ds s0, init_state sg fs0 refs ds = POk 
   forall ops s, run false sg s0 ops = POk s ->
     (cur s, fs s) = apply_ops (since_rb ops) (ds, fs0)
     /\ mk_data sg refs (cur s) = POk (data s)
-    /\ exists s', run false sg s0 (ops ++ [AddAlg]) = POk s'
-         /\ bound s' = bound s ++ [(data s, fs s)]
+    /\ forall nm, exists s', run false sg s0 (ops ++ [AddAlg nm]) = POk s'
+         /\ bound s' = bound s ++ [(nm, (data s, fs s))]
          /\ cur s' = cur s /\ data s' = data s /\ fs s' = fs s /\ dt s' = dt s /\ Ndats s' = Ndats s /\ Ts s' = Ts s.
 Proof.
   intros sg fs0 refs ds s0 Hinit ops s H.
   destruct (inv_run _ _ _ _ _ Hinit ops s H) as (Hc & Hd & _).
   split; [exact Hc|]. split; [exact Hd|].
-  rewrite run_snoc, H. cbn [bindp step]. eexists. split; [reflexivity|]. cbn. repeat split; reflexivity.
+  intro nm. rewrite run_snoc, H. cbn [bindp step]. eexists. split; [reflexivity|]. cbn. repeat split; reflexivity.
+Qed.
+
+(* re-binding: after add_algorithms(alg) the instance holds the data and fs of the setup at that moment, whether or not
+   it was added before; what the other instances hold is untouched *)
+Lemma alg_lookup_snoc_same : forall nm v log, alg_lookup nm (log ++ [(nm, v)]) = Some v.
+Proof. intros. unfold alg_lookup. rewrite rev_app_distr. cbn [rev app find fst snd]. rewrite Nat.eqb_refl. reflexivity. Qed.
+Lemma alg_lookup_snoc_other : forall nm nm' v log, nm' <> nm -> alg_lookup nm' (log ++ [(nm, v)]) = alg_lookup nm' log.
+Proof.
+  intros nm nm' v log Hne. unfold alg_lookup. rewrite rev_app_distr. cbn [rev app find fst snd].
+  destruct (Nat.eqb nm nm') eqn:E; [apply Nat.eqb_eq in E; congruence|reflexivity].
+Qed.
+Lemma prep_rebind : forall pc sg s0 ops s nm, run pc sg s0 ops = POk s ->
+  exists s', run pc sg s0 (ops ++ [AddAlg nm]) = POk s'
+    /\ alg_lookup nm (bound s') = Some (data s, fs s)
+    /\ (forall nm', nm' <> nm -> alg_lookup nm' (bound s') = alg_lookup nm' (bound s))
+    /\ cur s' = cur s /\ data s' = data s /\ fs s' = fs s /\ dt s' = dt s /\ Ndats s' = Ndats s /\ Ts s' = Ts s.
+Proof.
+  intros pc sg s0 ops s nm H. rewrite run_snoc, H. cbn [bindp step]. eexists. split; [reflexivity|].
+  cbn [bound cur data fs dt Ndats Ts]. split; [apply alg_lookup_snoc_same|]. split; [intros nm' Hne; apply alg_lookup_snoc_other; exact Hne|].
+  repeat split; reflexivity.
 Qed.
 
 Lemma fs_nz : forall fs0 P, fs0 <> 0%Qc -> P <> 0%Qc -> (fs0 / P)%Qc <> 0%Qc.
